@@ -1330,7 +1330,8 @@ class Node:
         # connections. If this is the only connection with the peer, nothing to
         # do.
         other_connections = [peer for peer in self.connections.values()
-                             if peer.origin_host == cer_origin_host]
+                             if peer is not conn and
+                             peer.node_name == cer_origin_host]
         if other_connections:
             if self.origin_host.lower() > cer_origin_host:
                 # election won, this peer connection may stay
@@ -1338,7 +1339,8 @@ class Node:
                     f"{conn} CER election won, closing other possible "
                     f"connections to the same host")
                 for other_conn in other_connections:
-                    other_conn.close()
+                    self.close_connection_socket(
+                        other_conn, DISCONNECT_REASON_CLEAN_DISCONNECT)
             else:
                 # election lost, this connection must go
                 self.logger.warning(
